@@ -50,6 +50,74 @@ class HarnessError(Exception):
     pass
 
 
+def snippet(case: dict) -> str | None:
+    """A self-contained Python snippet (nothing but schwifty imported) that shows the recorded case;
+    paste it into a unit test.  None for kinds that need the scheduler or a scratch registry - those
+    are replayed with ./check replay."""
+    k = case.get("kind")
+    r = repr
+    if k == "iban_text":
+        return ("from schwifty import IBAN\n"
+                f"t = {r(case['text'])}\n"
+                "for kw in ({}, {'validate_bban': True}):\n"
+                "    try:\n        print(kw, 'accepted', IBAN(t, **kw))\n"
+                "    except Exception as e:\n        print(kw, type(e).__name__, e)\n"
+                "print('is_valid', IBAN(t, allow_invalid=True).is_valid)")
+    if k == "bic_text":
+        return ("from schwifty import BIC\n"
+                f"t = {r(case['text'])}\n"
+                "for kw in ({}, {'enforce_swift_compliance': True}):\n"
+                "    try:\n        print(kw, 'accepted', BIC(t, **kw))\n"
+                "    except Exception as e:\n        print(kw, type(e).__name__, e)")
+    if k == "c02":
+        return ("from schwifty import IBAN\n"
+                f"country, bban = {r(case['country'])}, {r(case['bban'])}\n"
+                "print('from_bban ->', IBAN.from_bban(country, bban))\n"
+                "for d in range(100):\n"
+                "    t = f'{country}{d:02d}{bban}'\n"
+                "    if IBAN(t, allow_invalid=True).is_valid:\n        print('accepted:', t)")
+    if k in ("c03", "c03seq"):
+        pre = ""
+        if k == "c03seq":
+            pre = f"# first the same BBAN text as a valid IBAN of {case['partner']}\n"
+        return ("from schwifty import IBAN\n" + pre +
+                f"valid, mutated = {r(case['valid'])}, {r(case['mutated'])}\n"
+                "print('valid accepted:', IBAN(valid, allow_invalid=True).is_valid)\n"
+                "print('mistyped accepted (must be False):', IBAN(mutated, allow_invalid=True).is_valid)")
+    if k in ("c06", "c06seq", "c06bank", "c09rebuild"):
+        return ("from schwifty import IBAN\n"
+                f"country, bban = {r(case['country'])}, {r(case['bban'])}\n"
+                "i = IBAN.from_bban(country, bban)\n"
+                "try:\n    print('national validation:', i.validate(validate_bban=True))\n"
+                "except Exception as e:\n    print(type(e).__name__, e)")
+    if k == "c07m":
+        return ("from schwifty.checksum import algorithms\n"
+                f"print(algorithms['DE:{case['method']}'].validate([{r(case['account'])}], ''))")
+    if k == "c07d":
+        return ("from schwifty import IBAN\n"
+                f"i = IBAN.from_bban('DE', {r(case['bank_code'] + case['account'])})\n"
+                "try:\n    print(i, i.validate(validate_bban=True))\n"
+                "except Exception as e:\n    print(i, type(e).__name__, e)")
+    if k in ("c08", "c08seq"):
+        v = case["values"]
+        if case.get("via") == "generate":
+            call = (f"IBAN.generate({r(case['country'])}, {r(v.get('bank_code', ''))}, "
+                    f"{r(v.get('account_code', ''))}, {r(v.get('branch_code', ''))})")
+        else:
+            call = f"IBAN.from_bban({r(case['country'])}, BBAN.from_components({r(case['country'])}, **{v!r}))"
+        return ("from schwifty import IBAN, BBAN\n"
+                f"try:\n    print({call})\nexcept Exception as e:\n    print(type(e).__name__, e)")
+    if k == "c12key":
+        return ("from schwifty import BIC\n"
+                f"cc, code = {r(case['country'])}, {r(case['code'])}\n"
+                "for f in (BIC.candidates_from_bank_code, BIC.from_bank_code):\n"
+                "    try:\n        print(f.__name__, f(cc, code))\n"
+                "    except Exception as e:\n        print(f.__name__, type(e).__name__, e)")
+    if k == "c15":
+        return "# operation sequence (names from mc/props/c15.py build_alphabet): " + " ; ".join(case["sequence"])
+    return None
+
+
 class Run:
     """Collects what one check run covered and what it found."""
 
@@ -152,6 +220,7 @@ class Run:
                     for v in vs[1:MAX_EXAMPLES_PER_SIGNATURE]
                 ],
                 "replay": f"./check replay {path}",
+                "standalone_snippet": snippet(vs[0]["case"]),
                 "needs_history": bool(needs_history.get(sig)),
                 "shard": vs[0].get("shard"),
                 "shard_fn": getattr(getattr(self, "shard_fn", None), "__name__", None),
